@@ -53,7 +53,7 @@ def main():
             "engine": "kani-contracts",
             "level_claimed": {"category": "proof", "text": LOCAL + " Decided here: " + text + ".", "design_ref": "DESIGN.md " + ref},
             "level_note": "Trusted: Kani 0.68/CBMC 6.11/SAT, no-op tracing shims, fixed RandomState, assumed contract of Scheduler::switch, "
-                          "std containers inside loom wrappers, all unsafe code; clocks < u16::MAX; concrete thread counts per harness; "
+                          "std containers inside loom wrappers (the rwlock reader set HashSet is substituted by an array-backed set with an assumed finite-set contract, A9), all unsafe code; clocks < u16::MAX; concrete thread counts per harness; "
                           "global DPOR/RC11 step stated as assumption (see evidence.assumptions).",
             "technique": "contract-based deductive verification: pre/postcondition harnesses on the real functions (Kani/CBMC), callee contract models as stubs, Verus bridge lemmas",
         })
